@@ -351,6 +351,23 @@ def star_height(tree):
     return walk(tree)
 
 
+def _module_literals(m, f):
+    """module-level names assigned exactly once to a literal and never rebound inside f"""
+    from ..index import const_eval
+    local = {n.id for n in ast.walk(f.node) if isinstance(n, ast.Name) and isinstance(n.ctx, (ast.Store, ast.Del))} | set(f.params)
+    out = {}
+    for name, sts in m.constants.items():
+        if len(sts) != 1 or name in local:
+            continue
+        try:
+            v = const_eval(sts[0].value)
+        except (ValueError, TypeError):
+            continue
+        if isinstance(v, (int, float, str, bytes, bool, tuple)):
+            out[name] = v
+    return out
+
+
 # ----------------------------------------------------------------------------- loops
 def classify(run, m, f, loop):
     where = f"{m.rel}:{loop.lineno} {f.qualname}"
@@ -425,7 +442,7 @@ def classify(run, m, f, loop):
     if reads:
         for eof in (b"", ""):
             try:
-                outs = EofEval(loop, eof).run()
+                outs = EofEval(loop, eof, consts=_module_literals(m, f)).run()
             except RuntimeError as e:
                 raise AnalysisError(f"{where}: {e}")
             spins = [tr for kind, tr in outs if kind == "back" and not any(ev == "consume" for ev, _ in tr)]
